@@ -216,7 +216,7 @@ audio_h!(c05_audio_opus_second, false, true, Aud::Opus, true, true, &OPUS_PKT, t
 audio_h!(c05_audio_aac_invalid_second, false, true, Aud::Aac, true, true, &[0u8, 1, 2, 3, 4, 5, 6, 7, 8], false);
 
 // ---- rejected first video frame must not unlock audio (C05, two-step) ---------------
-//@ prop=C05 tier=quick cost=90 fns="api::Muxer::write_video,api::Muxer::write_audio" bound="fresh VP9+Opus muxer; rejected first video frame (any f64 pts, no config), then audio at any f64 pts" unwind=14 stubs="fmt::format"
+//@ prop=C05,C04 tier=quick cost=90 fns="api::Muxer::write_video,api::Muxer::write_audio" bound="fresh VP9+Opus muxer; rejected first video frame (any f64 pts, no config), then audio at any f64 pts" unwind=14 stubs="fmt::format"
 h!(c05_rejected_first_video_then_audio, 14, {
     let mut m = new_muxer(VideoCodec::Vp9, Aud::Opus);
     let t: f64 = kani::any();
@@ -279,7 +279,7 @@ h!(c12_encode_video_h264_sym3, 8, {
     kani::cover!(r.is_err(), "rejected");
     core::mem::forget((m, r, r2));
 });
-//@ prop=C12 tier=quick cost=200 fns="api::Muxer::encode_video,is_keyframe,write_video" bound="fresh H.265 muxer; all 3-byte frames and the empty frame" unwind=8 stubs="fmt::format" timeout=1200 mem=20
+//@ prop=C12 tier=thorough cost=250 fns="api::Muxer::encode_video,is_keyframe,write_video" bound="fresh H.265 muxer; all 3-byte frames and the empty frame" unwind=8 stubs="fmt::format" timeout=1200 mem=20
 h!(c12_encode_video_h265_sym3, 8, {
     let mut m = new_muxer(VideoCodec::H265, Aud::None);
     let d: [u8; 3] = kani::any();
@@ -315,4 +315,91 @@ h!(c12_encode_audio, 9, {
     kani::cover!(r.is_ok(), "accepted");
     kani::cover!(r.is_err(), "rejected");
     core::mem::forget((m, n, r0, r, r1, r2));
+});
+
+// ---- write_video_with_dts: the explicit-DTS twin --------------------------------------------
+/// one `write_video_with_dts` step; prev = (last accepted pts, last accepted dts)
+fn video_dts_step(m: &mut Muxer<NullSink>, prev_dts: Option<f64>, frame: &[u8], frame_has_config: bool, check_contract: bool, check_trace: bool) {
+    let t: f64 = kani::any();
+    let d: f64 = kani::any();
+    let key: bool = kani::any();
+    let before = full(m);
+    let r = m.write_video_with_dts(t, d, frame, key);
+    let after = full(m);
+    let c = classify(&r);
+    if check_contract {
+        let finite = t.is_finite() && d.is_finite();
+        let nonneg = !(t < 0.0) && !(d < 0.0);
+        let incr_lo = match prev_dts { Some(p) => d > p, None => true };
+        let incr_hi = match prev_dts { Some(p) => d >= p + 2.0 * TICK, None => true };
+        let gap_ok_hi = match prev_dts { Some(p) => d <= p + GAP32 - 2.0 * TICK, None => true };
+        let gap_ok_lo = match prev_dts { Some(p) => d < p + GAP32 + 2.0 * TICK, None => true };
+        let first = prev_dts.is_none();
+        let first_ok = !first || (key && frame_has_config);
+        let huge = t >= 1.0e14 || d >= 1.0e14;
+        if c == Cls::Ok {
+            assert!(!frame.is_empty() && finite && nonneg && incr_lo && gap_ok_lo && first_ok, "accepted although a precondition is violated");
+        }
+        if !frame.is_empty() && finite && nonneg && incr_hi && gap_ok_hi && first_ok && !huge {
+            assert!(c == Cls::Ok, "rejected although every precondition holds");
+        }
+        match c {
+            Cls::Ok => {}
+            Cls::Empty => assert!(frame.is_empty()),
+            Cls::NotFinite => assert!(!finite),
+            Cls::Negative => assert!(!nonneg),
+            Cls::NotIncreasing => assert!(!incr_hi),
+            Cls::GapTooLarge => assert!(!gap_ok_hi),
+            Cls::FirstNotKey => assert!(first && !key),
+            Cls::MissingConfig => assert!(first && !frame_has_config),
+            Cls::Finished => panic!("muxer is not finished"),
+            _ => panic!("error variant that no write_video_with_dts precondition corresponds to"),
+        }
+    }
+    if check_trace && c != Cls::Ok {
+        assert!(before.m == after.m, "rejected write_video_with_dts changed the muxer bookkeeping");
+        assert!(before.w == after.w, "rejected write_video_with_dts changed the writer state");
+        assert!(before.v_prev == after.v_prev, "rejected write_video_with_dts changed a queued sample");
+    }
+    kani::cover!(c == Cls::Ok, "accepted");
+    kani::cover!(c == Cls::MissingConfig || c == Cls::FirstNotKey, "rejected by the writer");
+    core::mem::forget(r);
+}
+//@ prop=C04,C12 tier=quick cost=120 fns="api::Muxer::write_video_with_dts,Mp4Writer::write_video_sample_with_dts" bound="fresh VP9 muxer; any f64 pts and dts, any key flag; valid keyframe" unwind=14 stubs="fmt::format" timeout=1200 covers_optional="rejected by the writer"
+h!(c04_video_dts_fresh_key, 14, {
+    let mut m = new_muxer(VideoCodec::Vp9, Aud::Opus);
+    video_dts_step(&mut m, None, &VP9_KEY, true, true, false);
+    core::mem::forget(m);
+});
+//@ prop=C04,C12 tier=quick cost=120 fns="api::Muxer::write_video_with_dts,Mp4Writer::write_video_sample_with_dts" bound="VP9 muxer after one explicit-DTS keyframe at pts 1.0 / dts 1.0; any f64 pts and dts, any key flag" unwind=14 stubs="fmt::format" timeout=1200 covers_optional="rejected by the writer"
+h!(c04_video_dts_second, 14, {
+    let mut m = new_muxer(VideoCodec::Vp9, Aud::Opus);
+    let r0 = m.write_video_with_dts(1.0, 1.0, &VP9_KEY, true);
+    assert!(r0.is_ok());
+    video_dts_step(&mut m, Some(1.0), &VP9_DELTA, false, true, false);
+    core::mem::forget((m, r0));
+});
+//@ prop=C05 tier=quick cost=120 fns="api::Muxer::write_video_with_dts" bound="fresh VP9 muxer; any f64 pts and dts, any key flag; frame without configuration (rejected by the writer)" unwind=14 stubs="fmt::format" timeout=1200 covers_optional="accepted"
+h!(c05_video_dts_fresh_noconfig, 14, {
+    let mut m = new_muxer(VideoCodec::Vp9, Aud::Opus);
+    video_dts_step(&mut m, None, &VP9_DELTA, false, false, true);
+    core::mem::forget(m);
+});
+//@ prop=C05 tier=quick cost=120 fns="api::Muxer::write_video_with_dts" bound="VP9 muxer after one explicit-DTS keyframe; any f64 pts and dts (rejections by time)" unwind=14 stubs="fmt::format" timeout=1200 covers_optional="rejected by the writer"
+h!(c05_video_dts_second, 14, {
+    let mut m = new_muxer(VideoCodec::Vp9, Aud::Opus);
+    let r0 = m.write_video_with_dts(1.0, 1.0, &VP9_KEY, true);
+    assert!(r0.is_ok());
+    video_dts_step(&mut m, Some(1.0), &VP9_DELTA, false, false, true);
+    core::mem::forget((m, r0));
+});
+//@ prop=C05,C04 tier=quick cost=120 fns="api::Muxer::write_video_with_dts,api::Muxer::write_audio" bound="fresh VP9+Opus muxer; rejected first explicit-DTS frame (any f64 pts/dts), then audio at any f64 pts" unwind=14 stubs="fmt::format" timeout=1200
+h!(c05_rejected_first_dts_video_then_audio, 14, {
+    let mut m = new_muxer(VideoCodec::Vp9, Aud::Opus);
+    let r = m.write_video_with_dts(kani::any(), kani::any(), &VP9_DELTA, kani::any());
+    assert!(r.is_err(), "a first frame without configuration is rejected");
+    let ra = m.write_audio(kani::any(), &OPUS_PKT);
+    assert!(classify(&ra) != Cls::Ok, "audio accepted although no video frame was ever accepted");
+    kani::cover!(true, "reached");
+    core::mem::forget((m, r, ra));
 });
